@@ -56,7 +56,7 @@ Qed.
 (* ------------------------------------------------------------------ frame: each operation, then any sequence *)
 Lemma mstep_extends d r s o : extends (fst s) (fst (fst (mstep d r s o))).
 Proof.
-  destruct s as [h b]. destruct o; cbn; try apply extends_refl; try apply deepcopy_heap_extends.
+  destruct s as [h b]. destruct o; cbn; try apply extends_refl; try apply deepcopy_heap_extends; try apply extends_app.
   destruct (lookup h r) as [[| |ch es0]|]; cbn; try apply extends_refl. apply extends_app.
 Qed.
 Lemma mrun_extends d r : forall ops s, extends (fst s) (fst (fst (mrun d r s ops))).
@@ -103,13 +103,16 @@ Proof.
   induction ops as [|o ops IH]; intros h b sr sc H R G; [reflexivity|].
   cbn [mrun map].
   assert (Hd : abs d (deepcopy_heap d r h) r = Some t) by (eapply abs_extends; eauto; apply deepcopy_heap_extends).
-  destruct o as [q| | |es|jac vec|vec|]; cbn [mstep carry_free] in *.
+  destruct o as [q| | |es|o|jac vec|vec|]; cbn [mstep carry_free] in *.
   - specialize (IH h b sr sc H R G). destruct (mrun d r (h, b) ops). cbn in *. rewrite IH. now rewrite (read_equiv d r h t q H).
   - specialize (IH h b sr sc H R G). destruct (mrun d r (h, b) ops). cbn in *. now rewrite IH.
   - specialize (IH _ b sr sc Hd R G). destruct (mrun d r (deepcopy_heap d r h, b) ops). cbn in *. now rewrite IH.
   - destruct (abs_root_edges _ _ _ _ H) as (ch & E). rewrite E. cbn iota beta.
     assert (He : abs d (h ++ [OCirc ch (root_edges t ++ es)]) r = Some t) by (eapply abs_extends; [exact H|apply extends_app]).
     specialize (IH _ b sr sc He R G). unfold heap in *. match goal with |- context [mrun ?a ?b ?c ?e] => destruct (mrun a b c e) eqn:Em end. try rewrite Em in IH. cbn in *. now rewrite IH.
+  - assert (He : abs d (h ++ [o]) r = Some t) by (eapply abs_extends; [exact H|apply extends_app]).
+    specialize (IH _ b sr sc He R G). unfold heap in *. match goal with |- context [mrun ?a ?b ?c ?e] => destruct (mrun a b c e) eqn:Em end.
+    try rewrite Em in IH. cbn in *. now rewrite IH.
   - apply andb_true_iff in G as [G G3]. apply andb_true_iff in G as [G1 G2]. apply negb_true_iff in G1. subst sr.
     assert (Ho : compile_out b vec = YDeclared /\ book_rel false (Some vec) (compile_book b vec)).
     { destruct sc as [v'|]; cbn in R; subst b.
